@@ -68,14 +68,14 @@ func (p *planner) failover(node uint64, c02 bool) {
 }
 
 func genC01(r *rand.Rand, tier string, in *input, c02 bool) {
-	switch r.IntN(6) {
-	case 0:
+	switch r.IntN(8) { // 5 voters in 3/8, 4 voters in 1/8 of the cases; the rest 3 voters
+	case 0, 1:
 		in.Voters, in.Quorum = 5, 3
-	case 1:
-		in.Voters, in.Quorum = 5, 4
 	case 2:
-		in.Voters, in.Quorum = 3, 3
+		in.Voters, in.Quorum = 5, 4
 	case 3:
+		in.Voters, in.Quorum = 3, 3
+	case 4:
 		in.Voters, in.Quorum = 4, 3
 	}
 	if r.IntN(3) == 0 || (c02 && r.IntN(4) == 0) {
@@ -102,6 +102,44 @@ func genC01(r *rand.Rand, tier string, in *input, c02 bool) {
 		}
 		x := r.IntN(100)
 		switch {
+		case x >= 35 && x < 42 && p.ready && in.Voters-2 >= in.Quorum: // unacknowledged leader tail repaired to ONE follower,
+			// leader + that follower stay a minority; both become unreachable, a voter that never saw the tail leads and commits
+			for v := uint64(1); v <= uint64(in.Voters); v++ {
+				p.setDown(v, false)
+			}
+			for k2 := 0; k2 < 1+r.IntN(2); k2++ { // every follower level with the leader
+				p.add(p.commitOp(p.leader, p.cur, p.newCmd()))
+			}
+			old := p.leader
+			xop := p.commitOp(old, p.cur, p.newCmd())
+			for v := uint64(1); v <= uint64(in.Voters); v++ {
+				if v != old {
+					xop.Drop = append(xop.Drop, v) // the local write succeeds, every follower exchange fails
+				}
+			}
+			p.add(xop)
+			f := p.otherNode(old)
+			p.add(opIn{K: "repair", Node: old, Peer: f, Tail: true})
+			if r.IntN(4) == 0 {
+				continue
+			}
+			p.setDown(old, true)
+			p.setDown(f, true)
+			ups := p.upNodes(0)
+			if len(ups) == 0 {
+				continue
+			}
+			next := ups[r.IntN(len(ups))]
+			a := p.nextTerm()
+			p.add(opIn{K: "restart", Node: next})
+			p.add(p.installOp(next, a))
+			p.noteInstall(next, a)
+			for k2 := 0; k2 < 2+r.IntN(2); k2++ {
+				p.add(p.commitOp(next, a, p.newCmd()))
+			}
+			if r.IntN(2) == 0 {
+				p.setDown(f, false)
+			}
 		case x < 42: // commit, possibly on a bare quorum or with a lost response
 			op := p.commitOp(p.leader, p.cur, p.newCmd())
 			switch r.IntN(6) {
